@@ -1,0 +1,5 @@
+//go:build !verif
+
+package pruner
+
+// The verification accessors of verif_on.go exist only under the build tag `verif`.
